@@ -297,6 +297,23 @@ def run(ctx):
                                   f"`{fq.module.line(st_['node'].lineno)}` writes into the default value of `{pname}`, which is shared by all calls")
     ctx.ok("STATE", "closure / STATE / mutable default arguments scanned", "forsys/*", f"{n_def} mutable defaults on the inference closure, none mutated" if True else "")
 
+    ctx.clause("the last call's arguments are what the solver sees: the wrappers forward every option")
+    for wrapper, callee in ((f"{FS}.solve_stress", f"{FM}.solve"), (f"{FS}.solve_pressure", "forsys.general_matrix.GeneralMatrix.solve_system")):
+        fw = repo.func(wrapper)
+        sw = sym.summarize(repo, fw.qualname)
+        cl = [e for e in sw.calls() if e.target == callee]
+        a = fw.node.args
+        named = [x.arg for x in a.posonlyargs + a.args + a.kwonlyargs][2:]       # beyond self, when
+        ok = len(cl) == 1 and a.kwarg is not None and any(k == "**" and v == T.sym("**" + a.kwarg.arg) for k, v in cl[0].kw)
+        swallowed = []
+        if cl:
+            passed = {v for v in cl[0].args} | {v for k, v in cl[0].kw}
+            swallowed = [n for n in named if T.sym(n) not in passed]
+        ctx.check(ok and not swallowed, "ALIGN", f"{wrapper} / ALIGN / every option reaches {callee.split('.')[-1]}", ctx.where(fw),
+                  "**kwargs forwarded; no named option kept back",
+                  f"option(s) {swallowed} of {wrapper.split('.')[-1]} are accepted but never forwarded to {callee.split('.')[-1]}" if swallowed else
+                  f"{wrapper.split('.')[-1]} does not forward **kwargs to {callee.split('.')[-1]}")
+
     ctx.clause("the matrices of frame t are built from frame t's own data")
     for builder, store, ctor in (("build_force_matrix", "force_matrices", "new:forsys.fmatrix.ForceMatrix"),
                                  ("build_pressure_matrix", "pressure_matrices", "new:forsys.pmatrix.PressureMatrix")):
@@ -316,6 +333,7 @@ def run(ctx):
 
 _P, _S, _F, _G = "forsys/fmatrix.py", "forsys/forsys.py", "forsys/frames.py", "forsys/general_matrix.py"
 PINNED = [
+    ("solve_stress swallows allow_negatives", _S, "    def solve_stress(self, when: int = 0, **kwargs) -> None:", "    def solve_stress(self, when: int = 0, allow_negatives: bool = True, **kwargs) -> None:"),
     ("class-level orientation cache in PressureMatrix", "forsys/pmatrix.py", "    def __init__(self, frame: object, timeseries: dict):", "    cell_orientation = {}\n\n    def __init__(self, frame: object, timeseries: dict):\n        self.cell_orientation[id(frame)] = True"),
     ("pressure matrix always built from frame 0", _S, "self.pressure_matrices[when] = pmatrix.PressureMatrix(self.frames[when],", "self.pressure_matrices[when] = pmatrix.PressureMatrix(self.frames[0],"),
     ("force matrix stored under the previous key", _S, "self.force_matrices[when] = fmatrix.ForceMatrix(self.frames[when],", "self.force_matrices[max(when - 1, 0)] = fmatrix.ForceMatrix(self.frames[when],"),
